@@ -95,6 +95,9 @@ MeanSign(b) == Sign(SumSeq(Ret(b)))
 SortinoDen(b) == LET a == Ret(b) IN K(b) * SumSeq([i \in 1..K(b) |-> IF a[i] < 0 THEN a[i] * a[i] ELSE 0])
 SortinoDefined(b) == SortinoDen(b) > 0
 Sortino2(b) == LET A == SumSeq(Ret(b)) IN Norm(<<365 * A * A, SortinoDen(b)>>)
+\* what metrics.sortino_ratio computes: the squared negative returns are divided by len(returns), which counts the
+\* leading NaN row of pct_change, i.e. by the number of balances k + 1 instead of the number of returns k
+Sortino2Impl(b) == LET A == SumSeq(Ret(b)) IN Norm(<<365 * A * A * (K(b) + 1), SortinoDen(b) * K(b)>>)
 \* annual return over exactly one 365-day year (366 samples): last / first - 1
 OneYear(b) == K(b) = 365
 Cagr(b) == Norm(<<b[Len(b)] - b[1], b[1]>>)
